@@ -17,6 +17,7 @@ import (
 	"github.com/youchainhq/go-youchain/core/state"
 	"github.com/youchainhq/go-youchain/core/types"
 	"github.com/youchainhq/go-youchain/params"
+	"github.com/youchainhq/go-youchain/staking"
 )
 
 // BlockCtx is everything known about one block of a run.
@@ -191,6 +192,16 @@ func (r *Run) Execute(mons ...Monitor) string {
 		m.Finish(r)
 	}
 	r.C.Count("periods_crossed", r.Periods)
+	// how close the delegation limits were approached (final state of the builder)
+	if st, err := r.A.Chain.State(); err == nil {
+		for _, v := range st.GetValidators().List() {
+			r.C.Max("max_delegations_per_validator", int64(len(v.Delegations)))
+		}
+		for i := 0; i < r.Sc.Users; i++ {
+			r.C.Max("max_delegations_per_delegator", int64(st.GetCountOfDelegateTo(r.W.UA(i))))
+		}
+		r.C.Max("max_validators", int64(st.GetValidators().Len()))
+	}
 	keys := make([]string, 0, len(r.txOutcomes))
 	for k, v := range r.txOutcomes {
 		r.C.Count(k, v)
@@ -288,6 +299,7 @@ func (r *Run) step(n uint64, mons []Monitor) bool {
 	if res.StoppedForGas {
 		r.C.Count("blocks_full", 1)
 	}
+	r.countModuleLogs(res)
 	if dbErr := res.State.Error(); dbErr != nil {
 		class := "builder-state-db-error:" + Normalise(dbErr.Error())
 		msg := fmt.Sprintf("block %d: the builder's post state carries a database error: %v", n, dbErr)
@@ -327,6 +339,32 @@ func (r *Run) step(n uint64, mons []Monitor) bool {
 		}
 	}
 	return true
+}
+
+// countModuleLogs counts what the staking module's end-of-block receipt reports.
+func (r *Run) countModuleLogs(res *build.Result) {
+	names := map[common.Hash]string{
+		common.StringToHash(staking.LogTopicSlashing):                    "ev_slashings",
+		common.StringToHash(staking.LogTopicRecoverFromExpiredExpelling): "ev_expulsions_recovered",
+		common.StringToHash(staking.LogTopicWithdrawResult):              "ev_withdraw_results",
+		common.StringToHash(staking.LogTopicWithdrawEffect):              "ev_validator_withdraw_effects",
+		common.StringToHash(staking.LogTopicDelegationSubEffect):         "ev_delegation_sub_effects",
+		common.StringToHash(staking.LogTopicDepositFailed):               "ev_deposit_failed_refunds",
+		common.StringToHash(staking.LogTopicDelegationAddFailed):         "ev_delegation_add_failed_refunds",
+		common.StringToHash(staking.LogTopicDelegationSubFailed):         "ev_delegation_sub_failed",
+		common.StringToHash(staking.LogTopicChangeStatusFailed):          "ev_change_status_failed",
+	}
+	for _, rc := range res.ModuleReceipts {
+		for _, l := range rc.Logs {
+			if len(l.Topics) == 0 {
+				continue
+			}
+			if n, ok := names[l.Topics[0]]; ok {
+				r.C.Count(n, 1)
+				r.SigPart(n)
+			}
+		}
+	}
 }
 
 // negativeRecords lists the pending staking records with a negative FinalValue.
